@@ -1,15 +1,25 @@
 import ZV.Base
+import ZV.Model.C18
+import ZV.Model.C22
 /-!
   C14 — model of x509/revocation/crl/crl.go: `CheckCRLForCert` and `gatherListExtensionInfo`.
 
   * serial numbers are `Int` (`big.Int.Cmp … == 0` is integer equality);
-  * the cache `map[string]*pkix.RevokedCertificate` is keyed by `SerialNumber.String()` (the decimal
-    numeral, injective on integers), so it is modelled as an association list keyed by the integer with
-    unique keys; `firstWins` / `lastWins` are the two ways a caller can fill such a map from the entry list
+  * the cache `map[string]*pkix.RevokedCertificate` is keyed by `SerialNumber.String()`.  `decChars` models
+    `(*big.Int).String()` (sign, then the base-10 digits, most significant first; "0" for zero) as the list of
+    characters of the Go string; the map is an association list keyed by these character lists.  That the
+    rendering is injective is a THEOREM (`Props/C14.decChars_injective`), not an assumption.
+    `firstWins` / `lastWins` are the two ways a caller can fill such a map from the entry list
     (`if _, ok := m[k]; !ok { m[k] = &e }`  resp. plain  `m[k] = &e`, which is what crl_test.go does);
-  * times are opaque integers (Unix seconds); the issuer is a list of RDNs of opaque (type, value) pairs;
-  * the CRL-number extension value is decoded by `asn1.Unmarshal(value, &int)`; `derInt` mirrors the path
-    that call takes through parseField / parseTagAndLength / parseInt64 (strict mode) for a Go `int` target.
+  * times are opaque integers (Unix seconds);
+  * the issuer is a `pkix.RDNSequence` and `ret.Issuer.FillFromRDNSequence(&…)` is the model `ZV.C22.fill` of
+    x509/pkix/pkix.go (all per-attribute fields, `Names`, `OriginalRDNS`; its dispatch tables are T1-checked by C22);
+  * the CRL-number extension value is decoded by `asn1.Unmarshal(value, &int)`: this is the shared `encoding/asn1`
+    model `ZV.C18.unmarshal` run in strict mode on the schema `int64` (a Go `int` is 64 bit) with empty field
+    parameters;
+  * `CertificateEntryExtensions` / `RawCertificateEntryExtensions` of `RevocationData` are never written by
+    `CheckCRLForCert` (reason code, invalidity date of the matching entry are NOT reported — see the TODO in crl.go):
+    the model carries them as constants so that T2 notices when that changes.
 -/
 namespace ZV.C14
 
@@ -24,25 +34,21 @@ structure Ext where
   value : Bytes
   deriving Repr, DecidableEq
 
-abbrev Atv := String          -- opaque attribute (type and value), printed back verbatim
-abbrev RDNs := List (List Atv)
-
 structure CRL where
   version : Int
   thisUpdate : Int
   nextUpdate : Int
-  issuer : RDNs
+  issuer : Option ZV.C22.RDNSeq      -- `none` = nil slice
   sig : Bytes
   entries : List Entry
   exts : List Ext
   deriving Repr
 
-/-- Go's `RevocationData` (fields the property speaks about). -/
+/-- Go's `RevocationData` (every field but CRLSignatureAlgorithm and CRLExtensions.AuthKeyID, which is never set). -/
 structure RevData where
   sig : Bytes := []
   version : Int := 0
-  issuerRDNs : RDNs := []
-  issuerNames : List Atv := []
+  issuer : ZV.C22.Name := {}
   thisUpdate : Int := 0
   nextUpdate : Int := 0
   crlNumber : Int := 0
@@ -50,73 +56,36 @@ structure RevData where
   unknownCritical : List Ext := []
   isRevoked : Bool := false
   revTime : Option Int := none     -- `none` = the zero time.Time
+  entryReason : Option Int := none -- CertificateEntryExtensions.Reason (nil pointer)
+  rawEntryExts : List Ext := []    -- RawCertificateEntryExtensions
   deriving Repr, DecidableEq
+
+/-! ### (*big.Int).String() -/
+
+def digitChar (d : Nat) : Char := Char.ofNat (48 + d)
+
+/-- `nat.utoa(10)`: base-10 digits, most significant first, "0" for zero -/
+def natDigits (n : Nat) : List Char :=
+  if n < 10 then [digitChar n] else natDigits (n / 10) ++ [digitChar (n % 10)]
+termination_by n
+decreasing_by omega
+
+/-- the characters of `x.String()` -/
+def decChars (i : Int) : List Char :=
+  match i with
+  | .ofNat n => natDigits n
+  | .negSucc n => '-' :: natDigits (n + 1)
+
+def decStr (i : Int) : String := String.ofList (decChars i)
 
 /-! ### asn1.Unmarshal(value, &int) -/
 
-/-- the long-form length loop of parseTagAndLength: `n` more length bytes, accumulated length `acc`. -/
-def lenLoop : Nat → Nat → Bytes → Option (Nat × Bytes)
-  | 0, acc, bs => some (acc, bs)
-  | n + 1, acc, bs =>
-    match bs with
-    | [] => none                                     -- truncated tag or length
-    | b :: rest =>
-      if acc ≥ 2 ^ 23 then none                      -- length too large
-      else
-        let acc' := acc * 256 + b.toNat
-        if acc' = 0 then none                        -- superfluous leading zeros in length
-        else lenLoop n acc' rest
-
-/-- the length part of parseTagAndLength (strict: AllowPermissiveParsing = false). -/
-def parseLen (bs : Bytes) : Option (Nat × Bytes) :=
-  match bs with
-  | [] => none
-  | b :: rest =>
-    if b.toNat < 128 then some (b.toNat, rest)
-    else
-      let nb := b.toNat - 128
-      if nb = 0 then none                            -- indefinite length
-      else
-        match lenLoop nb 0 rest with
-        | none => none
-        | some (l, rest') => if l < 128 then none else some (l, rest')   -- non-minimal length
-
-/-- big-endian two's-complement value of a non-empty byte string. -/
-def beNat : Bytes → Nat → Nat
-  | [], acc => acc
-  | b :: rest, acc => beNat rest (acc * 256 + b.toNat)
-
-def twos (bs : Bytes) : Int :=
-  match bs with
-  | [] => 0
-  | b :: _ =>
-    if b.toNat ≥ 128 then (beNat bs 0 : Int) - (2 ^ (8 * bs.length) : Nat) else (beNat bs 0 : Int)
-
-/-- checkInteger (strict) -/
-def checkInteger (bs : Bytes) : Bool :=
-  match bs with
-  | [] => false
-  | [_] => true
-  | b0 :: b1 :: _ =>
-    !((b0.toNat = 0 ∧ b1.toNat < 128) ∨ (b0.toNat = 255 ∧ b1.toNat ≥ 128))
-
-/-- `asn1.Unmarshal(bs, &x)` for `x int` (64 bit): `some v` on success (trailing bytes are allowed,
-    Unmarshal returns them as `rest`), `none` on any error. -/
+/-- `asn1.Unmarshal(bs, &x)` for `x int` (64 bit): `some v` on success (trailing bytes are allowed, Unmarshal
+    returns them as `rest`), `none` on any error. -/
 def derInt (bs : Bytes) : Option Int :=
-  match bs with
-  | [] => none                                       -- sequence truncated
-  | t :: rest =>
-    if t.toNat ≠ 2 then none                         -- not UNIVERSAL, primitive, tag 2 (a high-tag form never yields tag 2)
-    else
-      match parseLen rest with
-      | none => none
-      | some (l, body) =>
-        if l > body.length then none                 -- data truncated
-        else
-          let inner := body.take l
-          if !checkInteger inner then none
-          else if inner.length > 8 then none         -- integer too large
-          else some (twos inner)
+  match ZV.C18.unmarshal false .int64 {} bs with
+  | .ok (.int v, _) => some v
+  | _ => none
 
 /-! ### gatherListExtensionInfo -/
 
@@ -140,26 +109,27 @@ def gather (exts : List Ext) (ret : RevData) : RevData :=
 
 /-! ### the cache -/
 
-abbrev Cache := List (Int × Entry)
+abbrev Key := List Char
+abbrev Cache := List (Key × Entry)
 
-def Cache.get (c : Cache) (k : Int) : Option Entry :=
+def Cache.get (c : Cache) (k : Key) : Option Entry :=
   match c with
   | [] => none
   | (k', e) :: rest => if k' = k then some e else Cache.get rest k
 
 /-- `m[k] = e` on a Go map -/
-def Cache.set (c : Cache) (k : Int) (e : Entry) : Cache :=
+def Cache.set (c : Cache) (k : Key) (e : Entry) : Cache :=
   match c with
   | [] => [(k, e)]
   | (k', e') :: rest => if k' = k then (k, e) :: rest else (k', e') :: Cache.set rest k e
 
 /-- `for _, e := range entries { if _, ok := m[key e]; !ok { m[key e] = &e } }` -/
 def firstWins (entries : List Entry) : Cache :=
-  entries.foldl (fun m e => match m.get e.serial with | some _ => m | none => m.set e.serial e) []
+  entries.foldl (fun m e => match m.get (decChars e.serial) with | some _ => m | none => m.set (decChars e.serial) e) []
 
 /-- `for _, e := range entries { m[key e] = &e }` (crl_test.go) -/
 def lastWins (entries : List Entry) : Cache :=
-  entries.foldl (fun m e => m.set e.serial e) []
+  entries.foldl (fun m e => m.set (decChars e.serial) e) []
 
 /-! ### CheckCRLForCert -/
 
@@ -171,18 +141,15 @@ def search (entries : List Entry) (serial : Int) (ret : RevData) : RevData :=
     if e.serial = serial then { ret with isRevoked := true, revTime := some e.time }
     else search rest serial ret
 
-/-- pkix.Name.FillFromRDNSequence as far as observed: OriginalRDNS and the flattened Names. -/
-def fillNames (rdns : RDNs) : List Atv := rdns.flatten
-
 def header (crl : CRL) : RevData :=
   { sig := crl.sig, version := crl.version, thisUpdate := crl.thisUpdate, nextUpdate := crl.nextUpdate,
-    isRevoked := false, issuerRDNs := crl.issuer, issuerNames := fillNames crl.issuer }
+    isRevoked := false, issuer := ZV.C22.fill crl.issuer }
 
 def check (crl : CRL) (serial : Int) (cache : Option Cache) : RevData :=
   let ret := gather crl.exts (header crl)
   match cache with
   | some m =>
-    match m.get serial with
+    match m.get (decChars serial) with
     | some val => { ret with isRevoked := true, revTime := some val.time }
     | none => ret
   | none => search crl.entries serial ret
